@@ -17,7 +17,8 @@ RULE = ('(a) event histories with 1-4 simultaneously suspended cursors (queries 
         'contents that the logical update view prescribes.  Non-trivial: an update of the enumerated predicate happens '
         'while a cursor on it is suspended (a); the loop body runs at least once (b).  (c) kind dbprog: generated programs '
         '(see C07) with up to 3 nested enumerating goals (p(X), retract(p(X)), helper calls) and updates of the same '
-        'predicate in the rest of the body, mostly failure-driven; compiled by the real compiler; compared with the model '
+        'predicate in the rest of the body, mostly failure-driven; half of them with !, fail, ;, -> (with / without else), \\+ '
+        'around the goals and updates (cuts also in conditions, negations, helper predicates); compiled by the real compiler; compared with the model '
         'Engine/DbProg.v (answers, final facts, number of facts stored).  Non-trivial (c): an enumerating goal is followed in '
         'the same body by an update of its predicate.  Distinct by hash of the case.')
 TRUSTED_BASE = [
